@@ -659,6 +659,29 @@ def c13_merges(tier, seed):
         # into its base class)
         ev = tuple(rnd12(real.outcome(getattr(c, m), c.T_ref)[1]) if real.outcome(getattr(c, m), c.T_ref)[0] == 'ok' else 'exc' for m in ('get_HoRT', 'get_SoR'))
         return (rnd12(c.ND_H_ref), rnd12(c.ND_S_ref), tuple(sorted((float(k), float(v)) for k, v in c.ND_Cp_data.items())), c.range, c.T_ref, hasattr(c, '_correlation'), ev, type(c).__name__)
+    # pieces of one group given at DIFFERENT reference temperatures (H at 298 K, S at 400 K, the Cp table at 300 K): the union does not depend on the
+    # order in which they are merged (recorded finding K11: update() translates an incoming reference value with the Cp data merged SO FAR)
+    def piece(k_):
+        if k_ == 'a':
+            return ThermochemIncomplete(-5.0, None, {}, 298.0, None)
+        if k_ == 'b':
+            return ThermochemIncomplete(None, 12.0, {}, 400.0, None)
+        return ThermochemIncomplete(None, None, {300.: 3.0, 400.: 3.5, 500.: 4.0}, 300.0, (250., 600.))
+    res = {}
+    for order in itertools.permutations('abc'):
+        n += 1
+        try:
+            with real.quiet():
+                acc = piece(order[0]).copy()
+                for k_ in order[1:]:
+                    acc.update(piece(k_))
+                res[order] = (rnd12(acc.get_SoR(400.)), rnd12(acc.get_HoRT(298.)))
+        except Exception as e:    # noqa
+            res[order] = 'raised ' + type(e).__name__
+    if len(set(res.values())) != 1 or next(iter(res.values())) != (12.0, -5.0):
+        viol.append({'id': 'references-at-different-T_ref', 'cls': 'K11:references-at-different-T_ref', 'input': {'a': 'H/RT = -5 at 298 K', 'b': 'S/R = 12 at 400 K', 'c': 'Cp/R table 300..500 K, T_ref 300 K'},
+                     'observed': {''.join(o_): v_ for o_, v_ in res.items()}, 'expected': '(S/R(400 K), H/RT(298 K)) = (12.0, -5.0) in all six merge orders',
+                     'script': "import itertools, pgradd.ThermoChem\nfrom pgradd.ThermoChem import ThermochemIncomplete as TI\nmk = {'a': lambda: TI(-5.0, None, {}, 298.0, None), 'b': lambda: TI(None, 12.0, {}, 400.0, None), 'c': lambda: TI(None, None, {300.: 3.0, 400.: 3.5, 500.: 4.0}, 300.0, (250., 600.))}\nfor o in itertools.permutations('abc'):\n    acc = mk[o[0]]().copy()\n    [acc.update(mk[k]()) for k in o[1:]]\n    print(o, acc.get_SoR(400.), acc.get_HoRT(298.))\n"})
     ncase = 15 if tier == 'quick' else 120
     for ci in range(ncase):
         Ts = sorted(rnd.sample(range(300, 1300, 100), rnd.randint(0, 4)))
